@@ -336,6 +336,12 @@ def rmSock (idle : Nat) (s : St) : St :=
   | some _ => emit idle { s with sock := none } .unlink
   | none => s
 
+/-- the socket path names another worker's socket than `w`'s -/
+def clobbers (s : St) (w : Wid) : Bool :=
+  match s.sock with
+  | some w' => w' != w
+  | none => false
+
 def step (sh : LShape) (idle : Nat) (s : St) : Label → Option St
   | .tick d => some { s with now := s.now + d }
   | .begin t r =>
@@ -437,7 +443,7 @@ def step (sh : LShape) (idle : Nat) (s : St) : Label → Option St
     | .checked own =>
       if own then
         some { rmSock idle s with ws := upd s.ws w .gone,
-                                  clobbered := s.clobbered || (match s.sock with | some w' => w' != w | none => false) }
+                                  clobbered := s.clobbered || clobbers s w }
       else some { s with ws := upd s.ws w .gone }
     | _ => none
   | .vars sk m g => if sk = s.sock ∧ m = s.hasMeta ∧ g = s.lockGen then some s else none
